@@ -55,15 +55,15 @@ Valid(lay)    == \A i \in DOMAIN lay : BlockValid(lay[i])
 ThreadEntries(t, tid, x) ==
   Concat([i \in DOMAIN rec[t] |->
      LET ev == rec[t][i] IN
-       <<Entry(tid, ev.k, ev.name, ev.cat, IF ev.k = "E" /\ x THEN 55 ELSE ev.val)>>
-       \o (IF ev.k = "E" /\ x THEN <<Entry(tid, "C", "cpuUtilization", "builtin", -1)>> ELSE <<>>)])
+       <<Entry(tid, ev.k, ev.name, ev.cat, IF ev.k = "E" /\ x THEN "55" ELSE ev.val)>>
+       \o (IF ev.k = "E" /\ x THEN <<Entry(tid, "C", "cpuUtilization", "builtin", "not-an-integer")>> ELSE <<>>)])
 
-Block(b, tid, x) == <<Entry(tid, "M", "thread_name", "", 0)>> \o Concat([i \in DOMAIN b |-> ThreadEntries(b[i], tid, x)])
+Block(b, tid, x) == <<Entry(tid, "M", "thread_name", "", NoVal)>> \o Concat([i \in DOMAIN b |-> ThreadEntries(b[i], tid, x)])
 
 RefLog(lay, x) ==
-  (IF x THEN <<Entry(0, "M", "process_name", "", 0)>> ELSE <<>>)
+  (IF x THEN <<Entry(0, "M", "process_name", "", NoVal)>> ELSE <<>>)
   \o Concat([i \in DOMAIN lay |-> Block(lay[i], i - 1, x)])
-  \o (IF x THEN <<Entry(Len(lay), "M", "thread_name", "", 0)>> ELSE <<>>)          \* a registered thread that recorded nothing
+  \o (IF x THEN <<Entry(Len(lay), "M", "thread_name", "", NoVal)>> ELSE <<>>)          \* a registered thread that recorded nothing
 
 GoodLogs == {RefLog(lay, x) : lay \in {l \in Layouts : Valid(l)}, x \in BOOLEAN}
 BadLogs  == {RefLog(lay, x) : lay \in {l \in Layouts : ~Valid(l)}, x \in BOOLEAN}
@@ -81,7 +81,7 @@ MutantsOf(l) ==
   \cup {Swap(l, p[1], p[2]) : p \in {q \in RI \X RI : q[1] < q[2] /\ l[q[1]].tid = l[q[2]].tid /\ Proj(l[q[1]]) # Proj(l[q[2]])}}
   \cup {[l EXCEPT ![i].name = "zz"] : i \in {j \in RI : l[j].ph # "E"}}
   \cup {[l EXCEPT ![i].cat = "zz"] : i \in {j \in RI : l[j].ph \in {"B", "i"}}}
-  \cup {[l EXCEPT ![i].val = @ - 1] : i \in {j \in RI : l[j].ph = "C"}}
+  \cup {[l EXCEPT ![i].val = @ \o "0"] : i \in {j \in RI : l[j].ph = "C"}}
   \cup {[l EXCEPT ![i].ph = "X"] : i \in RI}
   \cup {[l EXCEPT ![i].ph = IF @ = "B" THEN "i" ELSE "B"] : i \in {j \in RI : l[j].ph \in {"B", "i"}}}
 
@@ -109,7 +109,7 @@ AltLaw == last.a = "SaveLog" =>
 
 \* the empty log: nothing recorded, the array may be empty or hold metadata only
 EmptyLaw  == Act = {} => /\ Accepts(<<>>, rec, prec) /\ MatchLog(<<>>, rec, prec)
-                         /\ ~Accepts(<<Entry(0, "B", "frame", "", 0)>>, rec, prec)
+                         /\ ~Accepts(<<Entry(0, "B", "frame", "", NoVal)>>, rec, prec)
 
 \* negative controls (each expected to be VIOLATED)
 \* moving an entry to another tid is not always a rejection: tids are identified only up to renaming
